@@ -823,4 +823,109 @@ theorem noOverlapAlong_of_B (w : Bool) (p : St × Trace) (ops : List Op) (h : no
   | cons op ops ih =>
     simp only [noOverlapAlongB, Bool.and_eq_true] at h
     exact ⟨noOverlap_of_B _ h.1, ih _ h.2⟩
+/-! ### the "if" direction: a pending handshake completes on its barrier reply -/
+
+theorem deliver_hs (s : St) (c : Nat) (m : Msg) (h : c < s.n) (hc : (s.conns c).closed = false)
+    (hd : (s.conns c).disc = false) (hu : (s.conns c).up = false) : deliver R s c m = dispatchHs R s c m := by
+  simp [deliver, hc, hd, hu, Nat.not_le.mpr h]
+
+theorem not_closed_of_not_disc (s : St) (c : Nat) (hs : SInv s) (hd : (s.conns c).disc = false) :
+    (s.conns c).closed = false := by
+  cases h : (s.conns c).closed with
+  | false => rfl
+  | true => have := hs.closedDisc c h; simp [hd] at this
+
+def Pending (s : St) (c x : Nat) : Prop :=
+  c < s.n ∧ (s.conns c).up = false ∧ (s.conns c).disc = false ∧ (s.conns c).barrier = some (some x)
+
+theorem finish_of_pending (s : St) (c x : Nat) (hs : SInv s) (hp : Pending s c x) :
+    step R s (.msg c (.barrierReply x)) = finish s c ∧
+    step R s (.msg c (.error x OFPET_BAD_REQUEST OFPBRC_BAD_TYPE)) = finish s c := by
+  obtain ⟨hc, hu, hd, hb⟩ := hp
+  have hcl := not_closed_of_not_disc s c hs hd
+  simp only [step]
+  rw [deliver_hs _ _ _ hc hcl hd hu, deliver_hs _ _ _ hc hcl hd hu]
+  simp [dispatchHs, hb, barrierXid, OFPET_BAD_REQUEST, OFPBRC_BAD_TYPE]
+
+theorem up_in_finish (s : St) (c : Nat) (b : Bool) : upEv b c ∈ (finish s c).2 := by
+  rw [finish_outs]; cases b <;> simp [finHead, ev2, upEv]
+
+theorem pending_after_features (s : St) (c d : Nat) (hs : SInv s) (hc : c < s.n) (hu : (s.conns c).up = false)
+    (hd : (s.conns c).disc = false) (hb : (s.conns c).broken = false) :
+    Pending (step R s (.msg c (.featuresReply d))).1 c (s.nextXid + 2) ∧
+    Out.sent c OFPT_BARRIER_REQUEST (s.nextXid + 2) ∈ (step R s (.msg c (.featuresReply d))).2 := by
+  have hcl := not_closed_of_not_disc s c hs hd
+  simp only [step]
+  rw [deliver_hs _ _ _ hc hcl hd hu, hs_features_ok _ _ _ _ hd hb]
+  simp [Pending, hc, hu, hd]
+
+theorem pending_stable (s : St) (op : Op) (c x : Nat) (hs : SInv s) (hp : Pending s c x)
+    (hbr : (s.conns c).broken = false)
+    (h1 : ∀ m, op = .msg c m → m = .hello ∨ m = .statsDesc ∨ (∃ n, m = .portStatus n) ∨ (∃ y, m = .echoRequest y) ∨ (∃ n, m = .packetIn n) ∨
+      (∃ y t e, m = .error y t e ∧ ¬ (y = x ∧ t = 1 ∧ e = 1)))
+    (h2 : op ≠ .eof c) (h3 : op ≠ .disc c) :
+    Pending (step R s op).1 c x := by
+  obtain ⟨hc, hu, hd, hb⟩ := hp
+  apply step_elim s op hs (fun r => Pending r.1 c x)
+  case connect => intro _; exact ⟨by simp; omega, hu, hd, hb⟩
+  case sendSome =>
+    intro d y c0 _ _
+    simp only [sendRaw]
+    split
+    · exact ⟨hc, hu, hd, hb⟩
+    split
+    · rename_i hdc hbc
+      have hne : c ≠ c0 := by intro e; subst e; simp [hbr] at hbc
+      refine ⟨by simpa using hc, by simpa using hu, ?_, by simpa using hb⟩
+      simp [disconnect_disc, hne, hd]
+    · exact ⟨hc, hu, hd, hb⟩
+  all_goals
+    intros
+    simp only [Pending]
+    simp_all [disconnect_disc, close_disc, finish_up, apply_ite Conn.up, apply_ite Conn.disc, apply_ite Conn.barrier]
+    try grind
+
+theorem broken_stable (s : St) (op : Op) (c : Nat) (hs : SInv s) (hb : (s.conns c).broken = false) (h : op ≠ .sockFail c) :
+    ((step R s op).1.conns c).broken = false := by
+  apply step_elim s op hs (fun r => (r.1.conns c).broken = false)
+  case sendSome =>
+    intro d y c0 _ _
+    simp only [sendRaw]
+    split
+    · exact hb
+    split
+    · simpa using hb
+    · exact hb
+  all_goals
+    intros
+    simp_all [apply_ite Conn.broken]
+    try grind
+
+/-- an operation that neither loses connection `c`, nor breaks its socket, nor is a handshake-relevant message on it -/
+def Harmless (c x : Nat) (op : Op) : Prop :=
+  op ≠ .eof c ∧ op ≠ .disc c ∧ op ≠ .sockFail c ∧
+  ∀ m, op = .msg c m → m = .hello ∨ m = .statsDesc ∨ (∃ n, m = .portStatus n) ∨ (∃ y, m = .echoRequest y) ∨ (∃ n, m = .packetIn n) ∨
+    (∃ y t e, m = .error y t e ∧ ¬ (y = x ∧ t = 1 ∧ e = 1))
+
+def stepS (cfg : Cfg) (s : St) (op : Op) : St := (step cfg s op).1
+
+theorem foldl_stepT_fst (cfg : Cfg) (ops : List Op) (p : St × Trace) :
+    (ops.foldl (stepT cfg) p).1 = ops.foldl (stepS cfg) p.1 := by
+  induction ops generalizing p with
+  | nil => rfl
+  | cons op ops ih => simp only [List.foldl_cons]; rw [ih]; rfl
+
+theorem run_append_fst (cfg : Cfg) (ops mid : List Op) :
+    (run cfg (ops ++ mid)).1 = mid.foldl (stepS cfg) (run cfg ops).1 := by
+  unfold run; rw [List.foldl_append, foldl_stepT_fst]
+
+theorem pending_foldl (mid : List Op) (s : St) (c x : Nat) (hs : SInv s) (hp : Pending s c x)
+    (hb : (s.conns c).broken = false) (hm : ∀ op ∈ mid, Harmless c x op) :
+    SInv (mid.foldl (stepS R) s) ∧ Pending (mid.foldl (stepS R) s) c x := by
+  induction mid generalizing s with
+  | nil => exact ⟨hs, hp⟩
+  | cons op mid ih =>
+    obtain ⟨h2, h3, h4, h1⟩ := hm op List.mem_cons_self
+    exact ih _ (sinv_step s op hs) (pending_stable s op c x hs hp hb h1 h2 h3) (broken_stable s op c hs hb h4)
+      (fun o ho => hm o (List.mem_cons_of_mem _ ho))
 end Pox.Conn
